@@ -3,6 +3,8 @@ package main
 // C04 — user text cannot change the token structure of emitted SQL (sanitizer placement and taint rules).
 
 import (
+	"golang.org/x/tools/go/packages"
+
 	"go/ast"
 	"go/constant"
 	"go/token"
@@ -24,8 +26,9 @@ func checkC04(r *Run) propMeta {
 	fp := r.MustPkg("cypher/models/pgsql/format")
 	finfo := fp.TypesInfo
 	fdecls := FuncDecls(fp)
+	c04Roles = findFormatRoles(fp)
 	// ---- R1 string sanitizer
-	if fv := fdecls["formatValue"]; fv != nil {
+	if fv := c04Roles.declOf(c04Roles.value); fv != nil {
 		ok := false
 		ast.Inspect(fv.Body, func(n ast.Node) bool {
 			cc, isCC := n.(*ast.CaseClause)
@@ -55,7 +58,7 @@ func checkC04(r *Run) propMeta {
 			r.Fail("C04-R1-string-literal", "formatValue:string", fv.Pos(), "formatValue's string case no longer doubles embedded single quotes inside a quoted literal: a quote in user text ends the literal")
 		}
 	} else {
-		r.Undecide("C04-R1: format.formatValue not found")
+		r.Undecide("C04-R1: the formatter's value function (a type switch over `any` with a string case) not found")
 	}
 	// who else writes string-typed runtime values raw? builder.Write(x) with x a non-constant string that is not the result
 	// of a strconv formatter / sanitizer, inside package format
@@ -94,7 +97,7 @@ func checkC04(r *Run) propMeta {
 									}
 								}
 							}
-							if strings.HasPrefix(full, "strconv.Format") || fn.Name() == "formatAlias" || fn.Name() == "formatIdentifier" || full == "strings.ReplaceAll" {
+							if strings.HasPrefix(full, "strconv.Format") || c04Roles.isAliasQuoter(fn) || c04Roles.isIdentFormatter(fn) || full == "strings.ReplaceAll" {
 								continue
 							}
 						}
@@ -179,7 +182,7 @@ func checkC04(r *Run) propMeta {
 			for _, st := range cc.Body {
 				ast.Inspect(st, func(m ast.Node) bool {
 					if call, ok := m.(*ast.CallExpr); ok {
-						if f := calleeOf(finfo, call); f != nil && f.Name() == "formatAlias" {
+						if f := calleeOf(finfo, call); c04Roles.isAliasQuoter(f) {
 							quoted = true
 						}
 						if id, ok := call.Fun.(*ast.Ident); ok && id.Name == "append" {
@@ -204,7 +207,7 @@ func checkC04(r *Run) propMeta {
 	} else {
 		r.Fail("C04-R3-alias-position", "format:AliasedExpression", token.NoPos, "the alias of an aliased expression is pushed to the output verbatim: a user-chosen result alias is read as SQL")
 	}
-	if fa := fdecls["formatAlias"]; fa != nil {
+	if fa := c04Roles.declOf(c04Roles.alias); fa != nil {
 		if findDoublingReplace(fp.TypesInfo, fa.Body, `"`) != nil {
 			r.Pass("C04-R3-alias-position", "formatAlias:doubles-quotes", fa.Pos(), "embedded double quotes are doubled inside the delimited identifier")
 		} else {
@@ -224,8 +227,7 @@ func checkC04(r *Run) propMeta {
 			}
 			for _, st := range cc.Body {
 				if stmtHasCall(st, func(c *ast.CallExpr) bool {
-					f := calleeOf(finfo, c)
-					return f != nil && f.Name() == "formatIdentifier"
+					return c04Roles.isIdentFormatter(calleeOf(finfo, c))
 				}) {
 					identSanitised = true
 				}
@@ -233,7 +235,7 @@ func checkC04(r *Run) propMeta {
 			return true
 		})
 	}
-	if fi := fdecls["formatIdentifier"]; fi != nil && identSanitised {
+	if fi := c04Roles.declOf(c04Roles.ident); fi != nil && identSanitised {
 		okSet, delegates := true, false
 		ast.Inspect(fi.Body, func(n ast.Node) bool {
 			switch x := n.(type) {
@@ -245,7 +247,7 @@ func checkC04(r *Run) propMeta {
 					}
 				}
 			case *ast.CallExpr:
-				if f := calleeOf(finfo, x); f != nil && f.Name() == "formatAlias" {
+				if f := calleeOf(finfo, x); c04Roles.isAliasQuoter(f) {
 					delegates = true
 				}
 			}
@@ -280,7 +282,7 @@ func isTokenStringer(info *types.Info, e ast.Expr) bool {
 			t := namedName(info.TypeOf(sel.X))
 			return t == "DataType" || t == "Operator"
 		}
-		if fn := calleeOf(info, x); fn != nil && fn.Name() == "formatAlias" {
+		if fn := calleeOf(info, x); c04Roles.isAliasQuoter(fn) {
 			return true
 		}
 		if tv, ok := info.Types[x.Fun]; ok && tv.IsType() && len(x.Args) == 1 {
@@ -609,4 +611,119 @@ func checkCommentEcho(r *Run) {
 	default:
 		r.Pass(rule, "FromCypher:echo", fd.Pos(), "every write of the echoed text goes through a replacer that re-opens the comment after \\r\\n, \\r and \\n")
 	}
+}
+
+// formatRoles: the three sanitising functions of the SQL formatter, found by what they are used for rather than by
+// their (private) names: the alias quoter is the string-returning function the AliasedExpression case passes the alias
+// to; the identifier formatter is the string-returning function the Identifier case passes the identifier to; the value
+// function is the package-level function with an `any` parameter and a type switch that has a string case.
+type formatRoles struct {
+	alias, ident, value *types.Func
+	decls               map[*types.Func]*ast.FuncDecl
+}
+
+var c04Roles formatRoles
+
+func (fr formatRoles) declOf(fn *types.Func) *ast.FuncDecl {
+	if fn == nil {
+		return nil
+	}
+	return fr.decls[fn]
+}
+
+func (fr formatRoles) isAliasQuoter(fn *types.Func) bool {
+	return fn != nil && fr.alias != nil && fn.Origin() == fr.alias
+}
+
+func (fr formatRoles) isIdentFormatter(fn *types.Func) bool {
+	return fn != nil && fr.ident != nil && fn.Origin() == fr.ident
+}
+
+func findFormatRoles(fp *packages.Package) formatRoles {
+	info := fp.TypesInfo
+	fr := formatRoles{decls: map[*types.Func]*ast.FuncDecl{}}
+	for _, f := range fp.Syntax {
+		for _, d := range f.Decls {
+			if fd, ok := d.(*ast.FuncDecl); ok && fd.Body != nil {
+				if fn, ok := info.Defs[fd.Name].(*types.Func); ok {
+					fr.decls[fn] = fd
+				}
+			}
+		}
+	}
+	returnsString := func(fn *types.Func) bool {
+		sig, _ := fn.Type().(*types.Signature)
+		if sig == nil || sig.Recv() != nil || sig.Results().Len() != 1 || fn.Pkg() != fp.Types {
+			return false
+		}
+		b, ok := sig.Results().At(0).Type().Underlying().(*types.Basic)
+		return ok && b.Kind() == types.String
+	}
+	for fn, fd := range fr.decls {
+		// value function
+		if sig := fn.Type().(*types.Signature); sig.Recv() == nil {
+			hasAny := false
+			for i := 0; i < sig.Params().Len(); i++ {
+				if it, ok := sig.Params().At(i).Type().Underlying().(*types.Interface); ok && it.Empty() && !sig.Variadic() {
+					if _, isTP := sig.Params().At(i).Type().(*types.TypeParam); !isTP {
+						hasAny = true
+					}
+				}
+			}
+			if hasAny {
+				ast.Inspect(fd.Body, func(n ast.Node) bool {
+					if cc, ok := n.(*ast.CaseClause); ok && len(cc.List) == 1 {
+						if tv, has := info.Types[cc.List[0]]; has && tv.IsType() && tv.Type.String() == "string" {
+							fr.value = fn
+						}
+					}
+					return true
+				})
+			}
+		}
+		// callees of the AliasedExpression / Identifier cases
+		ast.Inspect(fd.Body, func(n ast.Node) bool {
+			cc, ok := n.(*ast.CaseClause)
+			if !ok || len(cc.List) != 1 {
+				return true
+			}
+			tv, has := info.Types[cc.List[0]]
+			if !has || !tv.IsType() {
+				return true
+			}
+			if _, isPtr := tv.Type.(*types.Pointer); isPtr {
+				return true
+			}
+			switch namedName(tv.Type) {
+			case "AliasedExpression":
+				for _, st := range cc.Body {
+					ast.Inspect(st, func(m ast.Node) bool {
+						if call, ok := m.(*ast.CallExpr); ok && len(call.Args) == 1 {
+							if callee := calleeOf(info, call); callee != nil && returnsString(callee) {
+								if sel, ok := ast.Unparen(call.Args[0]).(*ast.SelectorExpr); ok && sel.Sel.Name == "Value" {
+									fr.alias = callee.Origin()
+								}
+							}
+						}
+						return true
+					})
+				}
+			case "Identifier":
+				for _, st := range cc.Body {
+					ast.Inspect(st, func(m ast.Node) bool {
+						if call, ok := m.(*ast.CallExpr); ok && len(call.Args) == 1 {
+							if callee := calleeOf(info, call); callee != nil && returnsString(callee) {
+								if id, ok := ast.Unparen(call.Args[0]).(*ast.Ident); ok && info.Uses[id] == info.Implicits[cc] {
+									fr.ident = callee.Origin()
+								}
+							}
+						}
+						return true
+					})
+				}
+			}
+			return true
+		})
+	}
+	return fr
 }
